@@ -200,14 +200,31 @@ def run_property(prop, tier, seed, args):
     smod = None
     if os.path.exists(os.path.join(ROOT, "standin", f"{prop.lower()}.py")):
         smod = importlib.import_module(f"standin.{prop.lower()}")
+        import signal
+
+        class _StandinTimeout(BaseException):
+            pass
+
+        def _alarm(signum, frame):
+            raise _StandinTimeout()
+        limit = 2400 if tier == "quick" else 6 * 3600        # wall-clock guard: far above any stand-in of the unchanged tree
         for fn in smod.STANDINS:
             t0 = time.time()
+            old_handler = signal.signal(signal.SIGALRM, _alarm)
+            signal.setitimer(signal.ITIMER_REAL, limit)
             try:
                 r = fn(tier, seed)
+            except _StandinTimeout:
+                # a scenario that never comes back (library code that no longer terminates, or the harness): undecided, never a hang
+                undecided.append(f"stand-in {fn.__name__}: did not finish within {limit} s of wall-clock time")
+                continue
             except Exception as e:
                 traceback.print_exc()
                 checker_errors.append(f"stand-in {fn.__name__} crashed: {e!r}")
                 continue
+            finally:
+                signal.setitimer(signal.ITIMER_REAL, 0)
+                signal.signal(signal.SIGALRM, old_handler)
             r["name"] = fn.__name__
             r["wall_s"] = round(time.time() - t0, 2)
             for v in r.pop("violations", []):
